@@ -163,8 +163,10 @@ class CropMachine:
         kw = {}
         if sc.batching["how"] != "none" and sc.batching["site"] == "sow":
             kw[sc.batching["how"]] = sc.batching["value"]
-        combos = dict(sw.combos) if sc.spell == "dict" else tuple(
-            (a, tuple(v)) for a, v in sw.combos)
+        if sc.spell == "dict":
+            combos = {a: G.spell_values(self.tape, v) for a, v in sw.combos}
+        else:
+            combos = tuple((a, G.spell_values(self.tape, v, as_tuple=True)) for a, v in sw.combos)
         constants = self.sow_constants() or None
         if sc.api == "sow_combos":
             if sc.shuffle["site"] == "sow":
@@ -659,6 +661,8 @@ VAR_DESC = {
     "int": ({"var_names": ["x"]}, ["x"]),
     "tuple2": ({"var_names": ["x", "y"]}, ["x", "y"]),
     "array": ({"var_names": "x", "var_dims": {"x": ["t"]}, "var_coords": {"t": [0, 1, 2]}}, ["x"]),
+    "npscalar": ({"var_names": "x"}, ["x"]),
+    "complex": ({"var_names": "x"}, ["x"]),
     "ndarray": ({"var_names": "x", "var_dims": {"x": ["t"]}, "var_coords": {"t": [0, 1, 2]}}, ["x"]),
     "intarray": ({"var_names": "x", "var_dims": {"x": ["t"]}, "var_coords": {"t": [0, 1, 2]}}, ["x"]),
     "bool": ({"var_names": "x"}, ["x"]),
@@ -669,7 +673,7 @@ VAR_DESC = {
 
 def outputs_of(kind, value):
     """reference value -> {var: value} as it appears in a Dataset/DataFrame"""
-    if kind in ("scalar", "int", "bool", "str", "array", "ndarray", "intarray"):
+    if kind in ("scalar", "int", "bool", "str", "array", "ndarray", "intarray", "npscalar", "complex"):
         return {"x": value}
     if kind == "tuple2":
         return {"x": value[0], "y": value[1]}
@@ -752,7 +756,7 @@ def run_c09(ctx):
         return run_c09_race(ctx)
 
     kinds = [("scalar", 5), ("tuple2", 2), ("array", 2), ("bool", 1), ("str", 1),
-             ("dict", 1), ("int", 1), ("ndarray", 1), ("intarray", 1)]
+             ("dict", 1), ("int", 1), ("ndarray", 1), ("intarray", 1), ("npscalar", 1), ("complex", 1)]
     m = CropMachine(ctx, kinds=kinds, max_n=30, max_batches=7)
     t = ctx.tape
     m.sow()
